@@ -77,6 +77,18 @@ theorem ini_wellformed_lines (h : Ini.Handler) (junk : Bytes) (ls : List Bytes) 
     · simp at hm
   rw [ini_string_spec h junk _ [] hj hz', Ini.chunks_lines _ ls hnl hlen]
 
+/-- **`iwini_parse_file` on a file with arbitrary content** (NUL bytes, no final newline, lines of any length): with
+    `fgets` as reader (each call delivers the next piece of at most `IWINI_MAX_LINE - 1` bytes, ending behind a newline)
+    the parser stays inside its buffers, ends, and reports the reference result on the part of each piece in front of
+    its first NUL — what follows a NUL inside a line is not seen, the next line is. -/
+theorem ini_file_spec (h : Ini.Handler) (junk content : Bytes) (hj : junk.length = Ini.genCfg.maxLine) :
+    Ini.parseFile Ini.genCfg h junk content =
+      .ok (Ini.refLines Ini.genCfg h Ini.Abs.init
+            ((Ini.chunks Ini.genCfg.readerNum content).map fun f => f.takeWhile (· ≠ 0))).error
+          (Ini.refLines Ini.genCfg h Ini.Abs.init
+            ((Ini.chunks Ini.genCfg.readerNum content).map fun f => f.takeWhile (· ≠ 0))).events :=
+  Ini.parseFile_spec Ini.genCfg ini_sizes_ok h junk content hj
+
 /-- non-vacuity: the hypotheses are satisfiable -/
 example : (List.replicate Ini.genCfg.maxLine 0xAA).length = Ini.genCfg.maxLine := List.length_replicate
 example : HasNul0 [91, 115, 93, 10, 0] := ⟨4, rfl⟩
